@@ -16,6 +16,11 @@ CLAIMED = {
             "over its full documented integer range (and beyond it for the raise-don't-wrap clause) against exact integer "
             "arithmetic on total nanoseconds; all paths exhausted per lemma.", "float arguments and total_* float accessors are outside the claim"),
 }
+CLAIMED["C01"] = ("4/C01", "Per calculator: year-length recurrence, day->year (estimate-and-correct loop, every day), day-of-year<->month/day, "
+                  "month-start sums, (y,m,d)->day number, validation (accept iff valid), ordering, bit-packing, range rejection, ISO fast path, eras; "
+                  "full year range for Gregorian/ISO, Julian, Coptic, Um Al Qura and Islamic year-level lemmas; seeded 180-year windows "
+                  "(all windows in thorough) for Persian x3, Hebrew x2, Badi with year functions tabulated from the real code; the implication "
+                  "lemmas => round trip is itself discharged by z3.", "windows not reached by a run are outside that run's claim; Hebrew month-order lemmas pending")
 NOT_BUILT = {}
 
 NA_REASON = "check not built yet in this round (design in DESIGN.md section 4); no claim is made"
